@@ -58,6 +58,13 @@ claim("C05", "exploration",
       "Trusted: incrate/wire.rs, the slicing arithmetic in incrate/c05_frag.rs. One fragment size per writer (RTPS rule). Fragment sizes 1..1024; sample sizes up to a few fragments.",
       "DESIGN.md section 2, C05")
 
+claim("C06", "exploration",
+      "fuzzing / property-based testing with structured generators: well-framed RTPS datagrams with boundary-pool field values, mutated and raw bytes, hostile discovery payloads, injected into a real node in a generated protocol state; oracles: no panic/abort, deterministic loop-iteration and allocation budgets, metamorphic survival clause (valid traffic of another peer processed as on a fresh node)",
+      "Generated hostile datagram sequences (structured with boundary pools for every numeric field; mutated; raw) are injected into MessageReceiver::handle_received_packet of a node with a reliable and a best-effort reader and a reliable writer with history, after valid traffic put it into a generated protocol state; ACKNACK/NACKFRAG reach Writer::handle_ack_nack as in DPEventLoop. "
+      "Per datagram: panics (overflow checks on), process aborts (supervisor), loop iterations at guarded tick points and peak allocation against budgets proportional to the datagram length. Afterwards a well-behaved peer's DATA+HEARTBEAT must be handed over byte-exact and answered with the right ACKNACK, and the writer must still answer that peer's ACKNACK with the requested sample. Genuine defects found are fixed or listed in known_findings.txt with a generator exclusion.",
+      "Trusted: tick points cover the value-driven loops found by reading (others are seen only by the 120 s watchdog, reported as inconclusive); allocation is measured per thread; libFuzzer target (fuzz/) adds coverage-guided raw bytes in the thorough tier.",
+      "DESIGN.md section 2, C06")
+
 NOT_YET = {
 }
 
